@@ -886,12 +886,12 @@ fn transverse_hamiltonian(_input_state: bool, _output_state: bool, transverse: f
 }
 
 fn longitudinal_hamiltonian(input_state: bool, output_state: bool, longitudinal: f64) -> f64 {
-    longitudinal.abs()
-        + match (input_state, output_state) {
-            (true, false) | (false, true) => 0.,
-            (true, true) => longitudinal,
-            (false, false) => -longitudinal,
-        }
+    match (input_state, output_state) {
+        // The field term is diagonal.
+        (true, false) | (false, true) => 0.,
+        (true, true) => longitudinal.abs() + longitudinal,
+        (false, false) => longitudinal.abs() - longitudinal,
+    }
 }
 
 /// Data required to evaluate the hamiltonian.
